@@ -736,24 +736,27 @@ Section WithEnv.
   (* get_note( index, ... ).  The gate compares the index with the number of
      recorded notes (after the fix of the C13 defect; the original compared it
      with the section size and indexed past note_start_positions). *)
+  (* the note whose header starts at [pos] of the data [p] of a section/segment of [size] bytes *)
+  Definition note_at (enc : endian) (p : ptr) (size pos : N) : res (option noteview) :=
+    type <- rd_word enc p (pos + 8) 4 ;;
+    namesz <- rd_word enc p pos 4 ;;
+    descsz <- rd_word enc p (pos + 4) 4 ;;
+    let maxn := wrap64 (size + (2 ^ 64 - pos)) in
+    if (namesz <? 1) || (maxn <? namesz) || (maxn <? namesz + descsz) then Ok None
+    else
+      name <- rd p (pos + 12) (namesz - 1) ;;
+      if descsz =? 0 then Ok (Some (mkNoteview type name None 0))
+      else
+        (* the accessor only forms the pointer; the caller reads descSize bytes *)
+        desc <- rd p (pos + 12 + pad4_32 namesz) descsz ;;
+        Ok (Some (mkNoteview type name (Some desc) descsz)).
+
   Definition note_get (el : elfio) (a : note_acc) (index : N) : res (elfio * option noteview) :=
     if lenN (na_starts a) <=? wrap32 index then Ok (el, None) else
     '(el1, p, size) <- note_data el (na_target a) ;;
       match nth_optN (na_starts a) (wrap32 index) with
       | None => Fault OobRead                   (* note_start_positions[index] past the vector *)
-      | Some pos =>
-          type <- rd_word (el_enc el1) p (pos + 8) 4 ;;
-          namesz <- rd_word (el_enc el1) p pos 4 ;;
-          descsz <- rd_word (el_enc el1) p (pos + 4) 4 ;;
-          let maxn := wrap64 (size + (2 ^ 64 - pos)) in
-          if (namesz <? 1) || (maxn <? namesz) || (maxn <? namesz + descsz) then Ok (el1, None)
-          else
-            name <- rd p (pos + 12) (namesz - 1) ;;
-            if descsz =? 0 then Ok (el1, Some (mkNoteview type name None 0))
-            else
-              (* the accessor only forms the pointer; the caller reads descSize bytes *)
-              desc <- rd p (pos + 12 + pad4_32 namesz) descsz ;;
-              Ok (el1, Some (mkNoteview type name (Some desc) descsz))
+      | Some pos => r <- note_at (el_enc el1) p size pos ;; Ok (el1, r)
       end.
 
   Definition enc_note (e : endian) (type : N) (name : bytes) (desc : bytes) : bytes :=
